@@ -2,6 +2,7 @@ package engine
 
 import (
 	"fmt"
+	"path/filepath"
 	"sort"
 	"strings"
 )
@@ -115,6 +116,23 @@ func par2Cycle(r *Run, o cycleOpts) {
 	recDeleted := 0
 	if t.Bool(1, 2, "lose-recovery") {
 		recDeleted = w.DeleteRecovery(r)
+	}
+	if t.Bool(1, 8, "backup-copy") {
+		// a user's backup copy of a recovery file beside the set: the
+		// same blocks are stored twice, the inventory of distinct blocks
+		// is unchanged
+		rec := w.RecoveryPaths()
+		if len(rec) > 0 {
+			src := rec[t.Draw(len(rec), "which")]
+			if b, ok := w.Disk.Get(src); ok {
+				dst := strings.TrimSuffix(src, ".par2") + []string{".backup", " (copy)", ".1"}[t.Draw(3, "suffix")] + ".par2"
+				w.Disk.Put(dst, b)
+				w.Created[dst] = b
+				w.Exps[dst] = w.Exps[src]
+				r.Logf("backup copy %s of %s", filepath.Base(dst), filepath.Base(src))
+				r.Probe("duplicated-recovery-file")
+			}
+		}
 	}
 	hostile := ""
 	if o.hostileRecovery && t.Bool(1, 2, "hostile-recovery") {
